@@ -128,17 +128,20 @@ type scenario struct {
 	BlockMS   int
 	Offsets   []int // start offset per member, in blocks
 	JitterMS  int
-	RestartOf int   // member to interrupt (-1: none)
-	RestartAt int   // blocks after that member's start
-	Absent    []int // members that start only after the Notary role is designated
-	Label     string
+	RestartOf int // member to interrupt (-1: none)
+	RestartAt int // blocks after that member's start
+	// second interruption: another member, or the same one again after its restart (-1: none)
+	Restart2Of int
+	Restart2At int
+	Absent     []int // members that start only after the Notary role is designated
+	Label      string
 }
 
 func scenarios(tier string, seed uint64) []scenario {
 	r := rand.New(rand.NewPCG(seed, 0xC13))
 	var res []scenario
 	mk := func(n int, label string) scenario {
-		s := scenario{N: n, BlockMS: 70, RestartOf: -1, Label: label}
+		s := scenario{N: n, BlockMS: 70, RestartOf: -1, Restart2Of: -1, Label: label}
 		s.Offsets = make([]int, n)
 		return s
 	}
@@ -159,6 +162,9 @@ func scenarios(tier string, seed uint64) []scenario {
 		s.RestartOf, s.RestartAt = 2, 40+r.IntN(60)
 		res = append(res, s)
 		res = append(res, jit(mk(4, "jitter")))
+		s = jit(mk(3, "leader-restart"))
+		s.RestartOf, s.RestartAt = 0, 30+r.IntN(80)
+		res = append(res, s)
 		return res
 	}
 	for n := 1; n <= 7; n++ {
@@ -173,6 +179,15 @@ func scenarios(tier string, seed uint64) []scenario {
 			s = jit(mk(n, "restart"))
 			s.RestartOf = r.IntN(n)
 			s.RestartAt = 5 + r.IntN(250)
+			res = append(res, s)
+		}
+		s = jit(mk(n, "leader-restart"))
+		s.RestartOf, s.RestartAt = 0, 5+r.IntN(200)
+		res = append(res, s)
+		if n >= 2 {
+			s = jit(mk(n, "double-restart"))
+			s.RestartOf, s.RestartAt = r.IntN(n), 5+r.IntN(150)
+			s.Restart2Of, s.Restart2At = r.IntN(n), 20+r.IntN(200)
 			res = append(res, s)
 		}
 		s = jit(mk(n, "absent-minority"))
@@ -311,9 +326,19 @@ func runScenario(b *runner.Batch, sc scenario) {
 		runs[i].startBlock = nd.Height()
 		mu.Unlock()
 		interrupted := false
-		if first && sc.RestartOf == i {
+		at := -1
+		mu.Lock()
+		nth := runs[i].restarts
+		mu.Unlock()
+		switch {
+		case nth == 0 && sc.RestartOf == i:
+			at = sc.RestartAt
+		case sc.Restart2Of == i && ((sc.RestartOf == i && nth == 1) || (sc.RestartOf != i && nth == 0)):
+			at = sc.Restart2At
+		}
+		if at >= 0 {
 			go func() {
-				waitBlocks(sc.RestartAt)
+				waitBlocks(at)
 				mu.Lock()
 				if !runs[i].done {
 					interrupted = true
@@ -436,6 +461,21 @@ wait:
 		b.Violation(fmt.Sprintf("the procedure submitted %d transactions the node refused as invalid, first: member %d at height %d: %s (%s)", bad, firstBad.Member, firstBad.Height, firstBad.Err, firstBad.Info), det())
 	}
 	b.Extra("submissions_recorded", nEvents)
+	// interleaving signature: the order in which members got their submissions through, run-length encoded
+	rec.mu.Lock()
+	var sig []string
+	prev := -1
+	for _, e := range rec.events {
+		if e.Err == "" && e.Member != prev {
+			sig = append(sig, fmt.Sprint(e.Member))
+			prev = e.Member
+		}
+	}
+	rec.mu.Unlock()
+	if len(sig) > 60 {
+		sig = sig[:60]
+	}
+	b.State("interleaving:" + strings.Join(sig, ""))
 	firstEnd := nd.Height()
 	checkFinalState(b, nd, sc, det)
 	if sc.N >= 3 && len(sc.Absent) > 0 {
@@ -443,6 +483,9 @@ wait:
 	}
 	if sc.RestartOf >= 0 && runs[sc.RestartOf].restarts > 0 {
 		b.Hit("restart-survived")
+		if sc.RestartOf == 0 {
+			b.Hit("leader-restart-survived")
+		}
 	}
 	if sc.N >= 4 {
 		b.Hit("designation-with>=2-remote-signatures")
@@ -808,7 +851,7 @@ func init() {
 		Batches: func(t string) int { return 1 + len(scenarios(t, 1)) },
 		NoTree:  true, Chunk: 1, Race: true, MaxParallel: 6,
 		ChildTimeout: func(string) time.Duration { return 20 * time.Minute },
-		Floors:       []string{"helper:divideFundsEvenly", "helper:transactionModifier", "helper:sharedTransactionData", "completed-n1", "completed-n2", "completed-n3", "completed-n4", "restart-survived", "absent-minority-bootstrap", "idempotence-rerun", "designation-with>=2-remote-signatures"},
+		Floors:       []string{"helper:divideFundsEvenly", "helper:transactionModifier", "helper:sharedTransactionData", "completed-n1", "completed-n2", "completed-n3", "completed-n4", "restart-survived", "leader-restart-survived", "absent-minority-bootstrap", "idempotence-rerun", "designation-with>=2-remote-signatures"},
 		Run:          runC13,
 		Exhaustive: func(string) (bool, string) {
 			return true, "fund division for all amounts 0..2000 x 1..41 receivers; nonce/validity window for all heights 0..10000 (deployment scenarios are sampled)"
